@@ -113,7 +113,7 @@ CHECKS = {
         engine="TextFormat",
         technique="TLA+ model of the file (label line, header, value lines) with Save / Load / Resave actions; TLC exhaustive over a grid of signals x loader entry points with real files written and read back in lock-step; TLC trace validation of random round trips",
         category="model_checking",
-        text=("TextFormat: npts 1..3 x 7 time steps from 1e-4 to 100 s x 6 micro-unit values (all tuples; npts = 3 sampled 1 in 5 in the quick "
+        text=("TextFormat: npts 1..3 x 8 time steps from 1e-4 to 100 s x 6 micro-unit values (all tuples; npts = 3 sampled 1 in 5 in the quick "
               "tier) x 2 labels x 10 loader entry points (load_values_and_dt, load_signal both types, load_sig and load_asig with m in "
               "{1, 2, -3} and label loading): RoundTrip and ResaveIdempotent on the model; every file is really written with save_signal, "
               "loaded through each entry point and re-saved, and the observation (npts, dt to 4 decimals, values to 6 decimals in integer "
